@@ -260,6 +260,14 @@ def _expand(call: ast.Call, ctx_stmt: ast.stmt, helper, hkind: str, caller) -> O
     none = ast.Constant(value=None)
     if isinstance(ctx_stmt, ast.Assign):
         def make(e):
+            tg = ctx_stmt.targets[0]
+            # a, b = X, Y   ->   a = X ; b = Y   (when no later element reads an earlier target)
+            if isinstance(tg, ast.Tuple) and isinstance(e, ast.Tuple) and len(tg.elts) == len(e.elts) and all(isinstance(t, ast.Name) for t in tg.elts) \
+                    and not any(isinstance(x, ast.Starred) for x in e.elts):
+                names = [t.id for t in tg.elts]
+                safe = all(not ({x.id for x in ast.walk(v) if isinstance(x, ast.Name)} & set(names[:i])) for i, v in enumerate(e.elts))
+                if safe:
+                    return [ast.Assign(targets=[copy.deepcopy(t)], value=v) for t, v in zip(tg.elts, e.elts)]
             return [ast.Assign(targets=copy.deepcopy(ctx_stmt.targets), value=e if e is not None else none)]
     elif isinstance(ctx_stmt, ast.AnnAssign):
         def make(e):
